@@ -43,6 +43,18 @@ def jsonable(o, depth=0):
     return repr(o)
 
 
+def truncate(o, maxlen=12):
+    """shorten long lists so that a sample stays readable"""
+    if isinstance(o, list):
+        out = [truncate(v, maxlen) for v in o[:maxlen]]
+        if len(o) > maxlen:
+            out.append(f"... ({len(o)} items)")
+        return out
+    if isinstance(o, dict):
+        return {k: truncate(v, maxlen) for k, v in o.items()}
+    return o
+
+
 def digest(*objs):
     h = hashlib.blake2b(digest_size=8)
     for o in objs:
@@ -111,9 +123,9 @@ class Ctx:
             return
         self.digests.add(digest(*objs))
 
-    def sample(self, obj, cap=4):
+    def sample(self, obj, cap=4, maxlen=12):
         if len(self.samples) < cap:
-            self.samples.append(jsonable(obj))
+            self.samples.append(truncate(jsonable(obj), maxlen))
 
     def risky(self, case):
         """synchronously record the case about to be executed (used before calls
